@@ -1032,6 +1032,30 @@ pub fn run_server(cfg: &ScenCfg, out: &mut RunOut) {
             }
         }
     };
+    // the caller's filter object is only read by server_create: a second server created from the same
+    // object filters exactly like the first
+    let mut server2: *mut rodbus_ffi::Server = std::ptr::null_mut();
+    if rc == 0 && cfg.variant == 0 && chance(1, 3) {
+        let map2 = unsafe { ffi::rodbus_device_map_create() };
+        let wh2 = Arc::new(Mutex::new(WhCtx::default()));
+        let handler2 = ffi::WriteHandler {
+            write_single_coil: Some(wh_coil),
+            write_single_register: Some(wh_reg),
+            write_multiple_coils: Some(wh_coils),
+            write_multiple_registers: Some(wh_regs),
+            on_destroy: Some(wh_destroy),
+            ctx: Arc::into_raw(wh2) as *mut c_void,
+        };
+        let (cb2, _t2) = db_callback(vec![DbOp::Add(3, 4, 7)]);
+        unsafe { ffi::rodbus_device_map_add_endpoint(map2, 1, handler2, cb2) };
+        let rc2 = unsafe { ffi::rodbus_server_create_tcp(rt.ptr, host.as_ptr(), 503, filter, 8, map2, ffi_decode(dec_idx), &mut server2) };
+        unsafe { ffi::rodbus_device_map_destroy(map2) };
+        if rc2 != 0 {
+            out.violate("C18", "server_create", format!("second server_create with the same filter object returned {}", rc2));
+            return;
+        }
+        out.probe("ffi_filter_object_reused");
+    }
     unsafe {
         ffi::rodbus_device_map_destroy(map);
         ffi::rodbus_address_filter_destroy(filter);
@@ -1041,6 +1065,30 @@ pub fn run_server(cfg: &ScenCfg, out: &mut RunOut) {
         return;
     }
     kernel::settle();
+    if !server2.is_null() {
+        let addr2: SocketAddr = "10.0.0.1:503".parse().unwrap();
+        for i in 0..2 {
+            let ip = super::sessions::gen_peer_ip_pub(base);
+            let matches = spec.matches(ip);
+            if let Some(p) = net::connect_from(addr2, SocketAddr::new(ip, 2300 + i)) {
+                kernel::settle();
+                p.write(&mbap_frame(3, 1, &[4, 0, 4, 0, 1]));
+                kernel::settle();
+                let got = p.take_received();
+                if matches && got.len() < 9 {
+                    out.violate("C16", "matching_peer_not_served", format!("second C ABI server created from the same filter object {:?}: peer {} matches but received {}", spec, ip, hex(&got)));
+                    return;
+                }
+                if !matches && (!got.is_empty() || !p.remote_closed()) {
+                    out.violate("C16", "non_matching_peer_served", format!("second C ABI server created from the same filter object {:?}: peer {} does not match but received {} bytes (closed={})", spec, ip, got.len(), p.remote_closed()));
+                    return;
+                }
+                out.ops_checked += 1;
+            }
+        }
+        unsafe { ffi::rodbus_server_destroy(server2) };
+        kernel::settle();
+    }
     let addr: SocketAddr = "10.0.0.1:502".parse().unwrap();
     // ---- C16: peers from the lattice
     let npeers = 1 + choose(4) as usize;
